@@ -319,10 +319,12 @@ def render(script, layout=None, stats=None):
             out.append(" " * lay.trailing[tr_i % len(lay.trailing)])
             tr_i += 1
         last = idx == len(L) - 1
-        if not last or lay.final_newline or line.kind == "arrayrow":
+        if not last or lay.final_newline or line.kind == "arrayrow" or lay.blank_before.get(len(L)):
             out.append(nl())
         last_kind = line.kind
-    for b in lay.blank_before.get(len(L), []):
+    tail = list(lay.blank_before.get(len(L), []))
+    for i, b in enumerate(tail):
         out.append(b)
-        out.append(nl())
+        if i < len(tail) - 1 or lay.final_newline:
+            out.append(nl())
     return "".join(out)
